@@ -184,12 +184,19 @@ Variable Rf : phase -> list nat.
 Let n := nroots p.
 Let deps := deps_of p.
 
+(* every dependency cycle lies among the roots registered before RunDSL (where the first
+   Roots() call reports it) *)
+Hypothesis cyc : forall a b, reach deps a b -> reach deps b a -> a <> b -> In a (Rf Exec) /\ In b (Rf Exec).
+
 Lemma topo_of_roots regs rs R :
+  incl (Rf Exec) regs ->
   (forall r, In r regs -> r < n) -> roots_of p regs = Ok rs -> incl R regs ->
   NoDup rs /\ forall u v, In u R -> reach deps u v -> u <> v -> forall l1 l2, rs = l1 ++ u :: l2 -> In v l1.
 Proof.
-  intros Hr E Hi. unfold roots_of in E.
-  destruct (roots_ok_spec (nroots p) (deps_of p) regs (deps_of_lt p) Hr rs E) as (ND & _ & _ & T).
+  intros H0 Hr E Hi. unfold roots_of in E.
+  assert (C : forall a b, reach (deps_of p) a b -> reach (deps_of p) b a -> a <> b -> In a regs /\ In b regs).
+  { intros a b A B N. destruct (cyc a b A B N) as [X Y]. split; now apply H0. }
+  destruct (roots_ok_spec (nroots p) (deps_of p) regs (deps_of_lt p) Hr rs C E) as (ND & _ & _ & T).
   split; [exact ND|]. intros u v Hu. apply T. now apply Hi.
 Qed.
 
@@ -197,23 +204,23 @@ Lemma rounds_order fuel : forall rs ex st,
   exec_ok n st -> roots_of p (s_regs st) = Ok rs -> incl (Rf Exec) (s_regs st) ->
   OInv deps Rf Exec ex st ->
   match rounds fuel p rs ex st with
-  | XDone _ st' => StronglySorted (dep_ok deps Rf) (s_trace st')
-  | XStop st' _ => StronglySorted (dep_ok deps Rf) (s_trace st')
+  | XDone _ st' => StronglySorted (dep_ok deps Rf) (s_trace st') /\ incl (Rf Exec) (s_regs st')
+  | XStop st' _ => StronglySorted (dep_ok deps Rf) (s_trace st') /\ incl (Rf Exec) (s_regs st')
   end.
 Proof.
   induction fuel as [|f IH]; intros rs ex st OK E Hi I; cbn [rounds].
-  - destruct (filter (fun r => negb (memb r ex)) rs); exact (proj1 I).
-  - destruct (filter (fun r => negb (memb r ex)) rs) as [|x pend] eqn:Ep; [exact (proj1 I)|].
+  - destruct (filter (fun r => negb (memb r ex)) rs); exact (conj (proj1 I) Hi).
+  - destruct (filter (fun r => negb (memb r ex)) rs) as [|x pend] eqn:Ep; [exact (conj (proj1 I) Hi)|].
     fold n. set (st' := fold_left (walk_exec n) (x :: pend) st).
     assert (I' : OInv deps Rf Exec (ex ++ x :: pend) st').
     { unfold st'. rewrite <- Ep. rewrite fold_filter.
-      destruct (topo_of_roots _ _ _ (xo_regs _ _ OK) E Hi) as [ND T].
+      destruct (topo_of_roots _ _ _ Hi (xo_regs _ _ OK) E Hi) as [ND T].
       apply (fold_topo deps Rf (walk_exec n) Exec rs ex (walk_exec_tagged n) ND T rs [] st eq_refl).
       cbn [filter]. now rewrite app_nil_r. }
     assert (OK' : exec_ok n st') by now apply walks_ok.
     assert (Hi' : incl (Rf Exec) (s_regs st')).
     { eapply incl_tran; [exact Hi| apply walks_regs_mono]. }
-    destruct (roots_of p (s_regs st')) as [rs'| |] eqn:E'; [|exact (proj1 I')|exact (proj1 I')].
+    destruct (roots_of p (s_regs st')) as [rs'| |] eqn:E'; [|exact (conj (proj1 I') Hi')|exact (conj (proj1 I') Hi')].
     apply (IH rs' (ex ++ x :: pend) st' OK' E' Hi' I').
 Qed.
 
@@ -221,39 +228,40 @@ Hypothesis RfExec : Rf Exec = s_regs (init_state p).
 
 Lemma exec_phase_order :
   match exec_phase p with
-  | XDone _ st => StronglySorted (dep_ok deps Rf) (s_trace st)
-  | XStop st _ => StronglySorted (dep_ok deps Rf) (s_trace st)
+  | XDone _ st => StronglySorted (dep_ok deps Rf) (s_trace st) /\ incl (Rf Exec) (s_regs st)
+  | XStop st _ => StronglySorted (dep_ok deps Rf) (s_trace st) /\ incl (Rf Exec) (s_regs st)
   end.
 Proof.
   unfold exec_phase.
-  assert (S0 : StronglySorted (dep_ok deps Rf) (s_trace (init_state p))) by constructor.
+  assert (S0 : StronglySorted (dep_ok deps Rf) (s_trace (init_state p)) /\ incl (Rf Exec) (s_regs (init_state p))).
+  { split; [constructor| rewrite RfExec; apply incl_refl]. }
   destruct (roots_of p (s_regs (init_state p))) as [rs| |] eqn:E; try exact S0.
   destruct rs as [|r rs]; [exact S0|].
   apply rounds_order; [apply init_ok| exact E| rewrite RfExec; apply incl_refl|].
-  split; [exact S0|]. split; [intros e []| intros u _ []].
+  split; [exact (proj1 S0)|]. split; [intros e []| intros u _ []].
 Qed.
 
 Lemma phase_fold_order ph (W : state -> nat -> state) rs st :
-  (forall st r, tagged ph r st (W st r)) ->
+  (forall st r, tagged ph r st (W st r)) -> incl (Rf Exec) (s_regs st) ->
   (forall r, In r (s_regs st) -> r < n) -> roots_of p (s_regs st) = Ok rs -> Rf ph = s_regs st ->
   StronglySorted (dep_ok deps Rf) (s_trace st) ->
   (forall e, In e (s_trace st) -> ev_phase e <> ph) ->
   StronglySorted (dep_ok deps Rf) (s_trace (fold_left W rs st)).
 Proof.
-  intros HW Hr E HR S Hno. rewrite fold_all.
-  destruct (topo_of_roots _ _ (Rf ph) Hr E) as [ND T]; [rewrite HR; apply incl_refl|].
+  intros HW H0 Hr E HR S Hno. rewrite fold_all.
+  destruct (topo_of_roots _ _ (Rf ph) H0 Hr E) as [ND T]; [rewrite HR; apply incl_refl|].
   apply (fold_topo deps Rf W ph rs [] HW ND T rs [] st eq_refl).
   split; [exact S|]. split; [|intros u _ []].
   intros e He Pe. exfalso. now apply (Hno e He).
 Qed.
 
 Lemma after_exec_order rs st :
-  exec_ok n st -> roots_of p (s_regs st) = Ok rs ->
+  exec_ok n st -> roots_of p (s_regs st) = Ok rs -> incl (Rf Exec) (s_regs st) ->
   Rf Prepare = s_regs st -> Rf Validate = s_regs st -> Rf Finalize = s_regs st ->
   StronglySorted (dep_ok deps Rf) (s_trace st) ->
   StronglySorted (dep_ok deps Rf) (fst (after_exec p rs st)).
 Proof.
-  intros [A B C] E R1 R2 R3 S. unfold after_exec.
+  intros [A B C] E H0 R1 R2 R3 S. unfold after_exec.
   destruct (s_errs st); [|exact S].
   set (st1 := fold_left (fun st r => prepare_root st p r) rs st).
   assert (P1 : calls Prepare st st1).
@@ -267,20 +275,14 @@ Proof.
   assert (P2 : validates st1 st2).
   { unfold st2. apply (fold_rel validates); [apply validates_refl| apply validates_trans| intros; apply validate_root_ok]. }
   assert (S2 : StronglySorted (dep_ok deps Rf) (s_trace st2)).
-  { apply (phase_fold_order Validate (fun st r => validate_root st p r)); try assumption.
+  { apply (phase_fold_order Validate (fun st r => validate_root st p r)); try assumption; try (rewrite G1; assumption).
     - intros; apply validate_root_tagged.
-    - now rewrite G1.
-    - now rewrite G1.
-    - now rewrite G1.
     - intros e He X. rewrite T1 in He. apply in_app_or in He as [He|He];
         [rewrite (only_in _ _ _ A He) in X| rewrite (only_in _ _ _ O1 He) in X]; discriminate. }
   destruct P2 as (_ & G2 & tv & es & T2 & O2 & _).
   destruct (s_errs st2); [|exact S2]. cbn [finish fst].
-  apply (phase_fold_order Finalize (fun st r => finalize_root st p r)); try assumption.
+  apply (phase_fold_order Finalize (fun st r => finalize_root st p r)); try assumption; try (rewrite G2, G1; assumption).
   - intros; apply finalize_root_tagged.
-  - now rewrite G2, G1.
-  - now rewrite G2, G1.
-  - now rewrite G2, G1.
   - intros e He X. rewrite T2, T1 in He. apply in_app_or in He as [He|He].
     + apply in_app_or in He as [He|He];
         [rewrite (only_in _ _ _ A He) in X| rewrite (only_in _ _ _ O1 He) in X]; discriminate.
@@ -292,9 +294,9 @@ Hypothesis RfLater : forall ph, ph <> Exec -> Rf ph = s_regs (final_state p).
 Lemma run_order : StronglySorted (dep_ok deps Rf) (fst (run_dsl p)).
 Proof.
   unfold run_dsl. pose proof exec_phase_order as S. pose proof (exec_phase_ok p) as OK.
-  destruct (exec_phase p) as [rs st|st o] eqn:E; [|exact S].
+  destruct (exec_phase p) as [rs st|st o] eqn:E; [|exact (proj1 S)].
   assert (F : final_state p = st) by (unfold final_state; now rewrite E).
-  destruct (exec_phase_done p rs st E) as (R & _).
+  destruct (exec_phase_done p rs st E) as (R & _). destruct S as [S S'].
   apply after_exec_order; try assumption; rewrite RfLater by discriminate; now rewrite F.
 Qed.
 End RunOrder.
